@@ -41,6 +41,8 @@ def _shapes(tier, cfg, t, base):
         S += [(M, K, N) for M in (1, 2, 5, W + 1) for K in (1, 3, W + 1) for N in (W - 1, W, W + 1, W + 2, 2 * W + 1) if N >= 1]
         # row blocks with two and three sub-blocks (M >= 2W, M % 12 == 0) against column blocks right of them
         S += [(M, K, N) for M in (4 * W + 1, 12) for K in (3, 2 * W + 3) for N in (W + 1, 2 * W + 1, 2 * W + 3)]
+        # rows left over between the two-sub-block row loop and the scalar rows (M >= 2W, M % 8 in 4..7): the four-row middle zone
+        S += [(M, K, N) for M in (2 * W + 5,) for K in (3, 2 * W + 3) for N in (W + 2, 2 * W + 1, 2 * W + 3)]
     else:
         main = cfg.isa in MAIN3
         if t == "f64" and main and base:
@@ -60,6 +62,8 @@ def _shapes(tier, cfg, t, base):
             S += [(M, K, N) for M in rng for K in (1, 3, 8) for N in range(1, 14)]
         extra = sorted({W - 1, W, W + 1, 2 * W, 2 * W + 1, 2 * W + 2, 3 * W + 1} - {0})
         S += [(M, K, N) for M in (1, 2, 5, 8, 13) for K in (1, 3, W + 1) for N in extra]
+        if base and W > 1:
+            S += [(M, K, N) for M in (2 * W + 4, 2 * W + 5, 2 * W + 7, 3 * W + 5) for K in (3, W + 2, 2 * W + 3) for N in (W + 2, 2 * W + 1, 2 * W + 3)]
     return sorted(set(S))
 
 
@@ -86,6 +90,6 @@ def cases(tier, cfg):
 
 
 def bounds(tier):
-    return {"quick": "f64 cube M,K,N<=5, f32/i32 cube <=3; M in {1,2,5,W+1} x K in {1,3,W+1} x N in {W-1,W,W+1,W+2,2W+1} for f64,f32,i32; nine tag pairs; S2,A1,A2,A5",
+    return {"quick": "f64 cube M,K,N<=5, f32/i32 cube <=3; M in {1,2,5,W+1} x K in {1,3,W+1} x N in {W-1,W,W+1,W+2,2W+1} for f64,f32,i32; + the four-row middle zone M=2W+5 (K in {3,2W+3}, N in {W+2,2W+1,2W+3}); nine tag pairs; S2,A1,A2,A5",
             "thorough": "f64: M,N<=13 x K in {1,2,3,4,5,8,9,13} on S2/A2/A5, cube<=8 on S0/S4/A1; f32,i32,i64: cube<=6 (main ISAs) + "
-                        "N in {W-1..W+1,2W..2W+2,3W+1}; nine tag pairs; six ISAs + C++17 + ASan"}[tier]
+                        "N in {W-1..W+1,2W..2W+2,3W+1}; M in {2W+4,2W+5,2W+7,3W+5} x K in {3,W+2,2W+3} x N in {W+2,2W+1,2W+3} (four-row middle zone); nine tag pairs; six ISAs + C++17 + ASan"}[tier]
